@@ -512,6 +512,18 @@ func (fr *Frame) callStatic(fn *ssa.Function, bind []Val, args []Val, c *ssa.Cal
 		key = fn.Origin().String()
 	}
 	fc := e.contracts.Funcs[key]
+	if fc != nil && fc.Flags["iterates"] != "" && c != nil {
+		fc.Used = true
+		var site ssa.Instruction
+		for _, b := range fr.fn.Blocks {
+			for _, in := range b.Instrs {
+				if ci, ok := in.(ssa.CallInstruction); ok && ci.Common() == c {
+					site = in
+				}
+			}
+		}
+		return fr.iterateCall(site, c, fc, args, st, pos)
+	}
 	if fc != nil && !fc.Inline {
 		fc.Used = true
 		v := fr.contractCall(fn, fc, args, bind, st, pos)
